@@ -8,8 +8,10 @@ open MemVerif.Model MemVerif.Gen
 structure PoolSt where
   cfg : Cfg := {}
   pool : Option Pool := none
+  pool2 : Option Pool := none
   poolMoved : Option Pool := none
   coll : Option Coll := none
+  coll2 : Option Coll := none
   collMoved : Option Coll := none
 
 /-- `key=value` arguments of a `new`/`move` line -/
@@ -43,11 +45,39 @@ def poolStep (st : PoolSt) (op : List String) (env : List (Option Nat)) : PoolSt
        | .done => presPool st r
        | _ => ({ st with pool := none }, outStr r.out, upStr r.ev, "-"))
     | _, _ => (st, "bad-new", "", "-")
+  | "new2" :: ns :: _bs :: rest =>
+    let kind := (kv rest "kind").getD ""
+    match mkList kind (nat! ns) rest, (kv rest "src").bind srcOfStr with
+    | some l, some src =>
+      let r := Pool.create cfg src l ((kv rest "arrays").getD "0" = "1") env
+      (match r.out with
+       | .done => ({ st with pool2 := some r.st }, outStr r.out, upStr r.ev, r.st.str)
+       | _ => ({ st with pool2 := none }, outStr r.out, upStr r.ev, "-"))
+    | _, _ => (st, "bad-new", "", "-")
   | _ =>
   match st.pool with
   | none => (st, "no-object", "", "-")
   | some p =>
     match op with
+    | ["switch"] =>
+      match st.pool2 with
+      | none => (st, "no-object", "", "-")
+      | some p2 => ({ st with pool := some p2, pool2 := some p }, "done", "", p2.str)
+    | "move_assign" :: rest =>
+      -- `*primary = std::move(*secondary)`: leak count, arena (the primary's blocks go back upstream) and free list are
+      -- taken over; the list is re-based onto the primary's list object and its cursors are reset
+      match st.pool2 with
+      | none => (st, "no-object", "", "-")
+      | some q =>
+        let (ev, _, _) := p.destroy { cfg with leak := false }
+        let (nl, ol) : AnyList × AnyList := match q.list with
+          | .ord l => let (a, b) := l.moveTo (kvNat rest "B") (kvNat rest "E"); (.ord a, .ord b)
+          | .small l => (.small { l with P := kvNat rest "P", allocChunk := kvNat rest "P", deallocChunk := kvNat rest "P" },
+                        .small { l with chunks := [], cap := 0, allocChunk := l.P, deallocChunk := l.P })
+          | .free l => (.free l, .free { l with nodes := [], cap := 0 })
+        let np : Pool := { q with list := nl }
+        let old : Pool := { q with list := ol, arena := q.arena.movedFrom, leak := 0 }
+        ({ st with pool := some np, pool2 := none, poolMoved := some old }, "done", upStr ev, np.str)
     | ["alloc_node"] => presPool st (p.allocateNode cfg env)
     | ["try_alloc_node"] => presPool st p.tryAllocateNode
     | ["alloc_array", n] => presPool st (p.allocateArray cfg (nat! n) env)
@@ -137,11 +167,30 @@ def collStep (st : PoolSt) (op : List String) (env : List (Option Nat)) : PoolSt
       let (c, out, ev) := Coll.create cfg src kind pol ((kv rest "arrays").getD "0" = "1") (nat! mx) env
       ({ st with coll := c }, outStr out, upStr ev, (c.map Coll.str).getD "-")
     | none => (st, "bad-new", "", "-")
+  | "new2" :: mx :: _bs :: rest =>
+    let kind := (kv rest "kind").getD ""
+    let pol := if (kv rest "dist").getD "" = "log2" then Policy.log2 else Policy.identity
+    match (kv rest "src").bind srcOfStr with
+    | some src =>
+      let (c, out, ev) := Coll.create cfg src kind pol ((kv rest "arrays").getD "0" = "1") (nat! mx) env
+      ({ st with coll2 := c }, outStr out, upStr ev, (c.map Coll.str).getD "-")
+    | none => (st, "bad-new", "", "-")
   | _ =>
   match st.coll with
   | none => (st, "no-object", "", "-")
   | some c =>
     match op with
+    | ["switch"] =>
+      match st.coll2 with
+      | none => (st, "no-object", "", "-")
+      | some c2 => ({ st with coll := some c2, coll2 := some c }, "done", "", c2.str)
+    | ["move_assign"] =>
+      match st.coll2 with
+      | none => (st, "no-object", "", "-")
+      | some q =>
+        let (ev, _, _) := c.destroy { cfg with leak := false }
+        let old : Coll := { q with arena := q.arena.movedFrom, cur := 0, lists := [], leak := 0 }
+        ({ st with coll := some q, coll2 := none, collMoved := some old }, "done", upStr ev, q.str)
     | ["alloc_node", s] => presColl st (c.allocateNode cfg (nat! s) env)
     | ["try_alloc_node", s] => presColl st (c.tryAllocateNode cfg (nat! s))
     | ["alloc_array", n, s] => presColl st (c.allocateArray cfg (nat! n) (nat! s) env)
